@@ -133,8 +133,8 @@ Proof. vm_compute. repeat split; reflexivity. Qed.
 Example C01_nv_back_to_back :
   let sty := {| st_size_ind := true; st_expedite := true; st_exp_size := true; st_lazy_end := false; st_segs := [2; 0] |} in
   let ts := [ {| t_style := sty; t_fault := None; t_pre := []; t_x := TDl 8192 0 [9; 8; 7; 6; 5; 4; 3; 2; 1] (Some 9) false [9; 2] |};
-              {| t_style := sty; t_fault := None; t_pre := [[0; 1; 2; 3; 4; 5; 6; 7]]; t_x := TUl 8192 0 (Some 7) UUpload |};
-              {| t_style := sty; t_fault := None; t_pre := []; t_x := TUl 4096 0 None URaw |} ] in
+              {| t_style := sty; t_fault := None; t_pre := [[0; 1; 2; 3; 4; 5; 6; 7]]; t_x := TUl 8192 5 (OArrT [(0, Some 5); (1, Some 7)]) UUpload |};
+              {| t_style := sty; t_fault := None; t_pre := []; t_x := TUl 4096 0 ONone URaw |} ] in
   seq_ok [(4096, [1; 2])] ts /\
   snd (spec_seq [(4096, [1; 2])] ts) = [VNone; VB [9; 8; 7; 6]; VB [1; 2]].
 Proof.
